@@ -138,7 +138,7 @@ def run(ctx):
     for fn in F.rws_fns():
         if fn.def_.endswith("::is_matching_request") and fn.ret == "bool":
             matchers.append((fn.def_, "legacy", fn.def_.rsplit("::", 1)[0]))
-    r1 = chk.rule("R1-matchers-treat-HEAD-OPTIONS-like-GET", "for every controller matcher: if a true return is feasible with method GET it is feasible with HEAD and with OPTIONS (all 10 abstract methods evaluated)", floor=20)
+    r1 = chk.rule("R1-matchers-treat-HEAD-OPTIONS-like-GET", "for every controller matcher: if a true return is feasible with method GET it is feasible with HEAD and with OPTIONS (all 10 abstract methods evaluated)", floor=8)
     chk.extra["exhaustive"] = True
     table = {}
     for name, kind, ctrl in sorted(matchers):
